@@ -573,12 +573,12 @@ pub fn process<I: BufRead, O: Write>(
                         if !params.is_empty() {
                             for v in caps.get(2).unwrap().as_str().split(',') {
                                 let vx = v.trim();
-                                if vx.is_empty() {
+                                if vx.is_empty() || rex.contains(&format!("(?P<{}>", vx)) {
                                     return Err(Error::Syntax {
                                         filename: filename.clone(),
                                         included_in: included_in.clone(),
                                         line,
-                                        msg: format!("Empty parameter name in macro {}", mcro),
+                                        msg: format!("Empty or duplicate parameter name in macro {}", mcro),
                                     });
                                 }
                                 let re = Regex::new(&format!("\\b{}\\b", vx)).unwrap();
